@@ -235,7 +235,7 @@ impl<'a> Gen<'a> {
         if self.r.chance(1, 20) && ops.len() > 1 { ops[1].0 = "uom".into(); } // non-consecutive
         let mut amt = offer_res / [100_000u128, 10_000, 1000, 200, 20][self.r.below(5) as usize] + 1;
         // boundary probing of the 50 % cap: a large trade under an explicit tolerance above the cap
-        let big = self.r.chance(1, 8);
+        let big = self.r.chance(1, 5);
         if big { amt = offer_res.saturating_mul(1 + self.r.below(3) as u128) / [1u128, 2, 1][self.r.below(3) as usize] + 1; }
         let sender = pick_user(self.r);
         let mr = match self.r.below(8) { 0 => "1".to_string(), 1 => u128::MAX.to_string(), _ => "-".into() };
@@ -562,6 +562,33 @@ impl<'a> Gen<'a> {
         self.emit(format!("tx {} 0 fm claim -", ub));
     }
 
+    /// directed scenario for C05 / C11: two farms paying the same reward denom, a user claims from both,
+    /// then one of them is closed: the refund must be the unclaimed remainder only (the other farm's budget
+    /// and the locked LP stay covered)
+    pub fn op_scenario_close_after_claim(&mut self) {
+        let Some(lp) = self.some_lp() else { return self.op_provide() };
+        let holders = self.lp_holders(&lp);
+        let Some(u) = holders.first().copied() else { return self.op_provide() };
+        let cfg: mantra_dex_std::farm_manager::Config = self.run.h.w.app.wrap()
+            .query_wasm_smart(self.run.h.w.a("fm"), &mantra_dex_std::farm_manager::QueryMsg::Config {}).unwrap();
+        if cfg.max_concurrent_farms < 2 { self.emit("tx owner 0 fm config - - - - - 3 - - - - -".to_string()); }
+        let cur = self.cur_epoch();
+        let tag = self.r.below(10_000);
+        for (k, owner) in ["u1", "u2"].iter().enumerate() {
+            let aa = 4000 + self.r.below(50_000) as u128;
+            let asset = coin(aa, "uusdc");
+            let funds = self.farm_fee_funds(&asset);
+            self.emit(format!("tx {} {} fm createfarm {} {} {} uusdc {} cc{}{}", owner, funds_str(&funds), lp, cur + 1, cur + 9, aa, k, tag));
+        }
+        let bal = self.run.h.w.balance(u, &lp);
+        self.emit(format!("tx {} 1 {} {} fm createpos ccp{} {} -", u, lp, bal / 7 + 1, tag, DAY));
+        let adv = (2 + self.r.below(3)) * DAY * 1_000_000_000;
+        self.emit(format!("advance {}", adv));
+        self.emit(format!("tx {} 0 fm claim -", u));
+        let closer = if self.r.chance(1, 4) { "owner" } else { "u1" };
+        self.emit(format!("tx {} 0 fm closefarm m-cc0{}", closer, tag));
+    }
+
     /// directed scenario for C20 / C11: two farms of one owner on one LP token paying different denoms
     /// expire, then somebody else's farm creation closes both automatically (under fault enumeration one
     /// refund at a time fails: the other must still arrive)
@@ -731,6 +758,7 @@ pub fn gen_fm_case(r: &mut Rng, id: u64, len: u64, faults: bool, o: &mut Out) {
             38 => g.op_scenario_farm_expiry_boundary(),
             39 => if g.r.chance(1, 3) { g.op_scenario_double_autoclose() } else { g.op_advance() },
             40 => if g.r.chance(1, 2) { g.op_scenario_piecewise_close() } else { g.op_advance() },
+            41 => if g.r.chance(1, 2) { g.op_scenario_close_after_claim() } else { g.op_advance() },
             _ => g.op_advance(),
         }
     }
